@@ -636,6 +636,72 @@ def check_cases(chk, binary, cases, stream, max_report=2):
     return impl, len(exprs)
 
 
+def default_filter_stage(chk, r, thorough):
+    """which default filter applies: the profile's, unless an override that carries a default-filter matches
+    the build platforms -- BOTH its host spec and its target spec (the first such override wins). Observed on the
+    real `cargo nextest list --message-format json` over the scripted workspace (host = target = this machine,
+    a unix), with overrides whose platform is given as a string (target only) or as a table with host and / or
+    target, matching (cfg(unix)) or not (cfg(windows)); --ignore-default-filter switches the stage off."""
+    import e2e
+    try:
+        rig = e2e.Rig()
+    except RuntimeError as ex:
+        chk.violation("broken-obligation", "e2e-build", dict(error=str(ex)[-2000:]), no_input=True)
+        return
+    names = [f"t{i}_{c}" for i, c in enumerate("abcabc")]
+    scen = {"bins": {"alpha::t1": {"tests": {n: {"attempts": [{"exit": 0}]} for n in names}}}}
+    specs = [("str", None, "cfg(unix)"), ("str", None, "cfg(windows)"), ("tbl", "cfg(unix)", None), ("tbl", "cfg(windows)", None),
+             ("tbl", None, "cfg(windows)"), ("tbl", "cfg(windows)", "cfg(unix)"), ("tbl", "cfg(unix)", "cfg(windows)"),
+             ("tbl", "cfg(unix)", "cfg(unix)")]
+    cases = []
+    for k, sp in enumerate(specs):
+        cases.append([sp])
+    for _ in range(30 if thorough else 6):
+        cases.append([r.choice(specs) for _ in range(r.choice([2, 2, 3]))])
+    letters = "abc"
+    for ci, ovs in enumerate(cases):
+        prof = f"df{os.getpid()}x{ci}"
+        lines = [f"[profile.{prof}]", 'default-filter = "test(_a)"']
+        want = "_a"
+        chosen = None
+        for oi, (form, host, target) in enumerate(ovs):
+            letter = letters[(oi + 1) % 3]
+            lines.append(f"[[profile.{prof}.overrides]]")
+            if form == "str":
+                lines.append(f"platform = '{target}'")
+            elif form == "tbl":
+                parts = ([f'host = "{host}"'] if host else []) + ([f'target = "{target}"'] if target else [])
+                lines.append("platform = { " + ", ".join(parts) + " }")
+            lines.append(f'default-filter = "test(_{letter})"')
+            ok = (host in (None, "cfg(unix)")) and (target in (None, "cfg(unix)"))
+            if ok and chosen is None:
+                chosen, want = oi, "_" + letter
+        cfg = "\n".join(lines) + "\n"
+        for ignore in (False, True):
+            res = rig.run(scen, cfg, args=["--profile", prof, "--message-format", "json"] +
+                          (["--ignore-default-filter"] if ignore else []), subcommand="list", timeout=60)
+            chk.count("default_filter_listings")
+            try:
+                suites = json.loads(res["stdout"])["rust-suites"]
+                got = {n: t["filter-match"]["status"] == "matches"
+                       for su in suites.values() for n, t in su["testcases"].items()}
+            except (ValueError, KeyError) as ex:
+                chk.violation("broken-obligation", "default-filter-stage",
+                              dict(config=cfg, rc=res["rc"], stderr=res["stderr"][-800:], error=str(ex)), no_input=True)
+                rig.cleanup(res)
+                return
+            rig.cleanup(res)
+            exp = {n: (True if ignore else want in n) for n in names}
+            if got != exp:
+                chk.violation("counterexample", "oracle:default-filter-source", dict(
+                    input=dict(config=cfg, ignore_default_filter=ignore), selected=sorted(n for n in got if got[n]),
+                    documented=sorted(n for n in exp if exp[n]),
+                    clause="a test is in the default filter unless that is disabled; the default filter is the one of the first "
+                           "override carrying a default-filter whose host AND target platform specs match the build, else "
+                           "the profile's"))
+                return
+
+
 def run(tier, seed):
     chk = vlib.Check(PROP, tier, seed)
     gate = vlib.coq_gate(PROP)
@@ -652,6 +718,7 @@ def run(tier, seed):
     r = vlib.rng_for(seed, PROP)
     thorough = tier == "thorough"
     evaluations = 0
+    default_filter_stage(chk, vlib.rng_for(seed, PROP + ":default-filter"), thorough)
 
     # ---- corr:filter-case: corpus first, then generated
     cor = corpus()
